@@ -825,7 +825,7 @@ pub fn check_generation(
                             }
                             let mut last_err: Option<(String, String)> = None;
                             let mut ok = false;
-                            for h in hs.iter().take(4) {
+                            for h in hs.iter() {
                                 if fs.materialise(&img, &cut).is_err() {
                                     ok = true; // cannot judge
                                     break;
@@ -1256,7 +1256,7 @@ pub fn crash_prop(id: &'static str, judge: Judge, stride: u16, arena_full: bool)
     let rule = match judge {
         Judge::Acked => "case = generated workload (one-shot transactions of 1..6 keys with Eventual / Immediate durability, flush_wal(sync), rotate, flush, compaction rounds, clean reopen, key-window phases; tiny memtables/blocks; vlog on/off) run in a child process under an LD_PRELOAD recorder of every file operation, plus a continuation workload for a second generation. Crash images are ENUMERATED: at every file-operation boundary of the trace (all of them for traces <= 300 operations, otherwise every boundary within 2 operations of a marker / rename / unlink / fsync / open plus a strided sample) one process-crash image (all completed writes kept) and two power-loss images (every file cut to its fsynced length; the last write torn at 1 / 3 / 6 / 7 / half / all-but-one of its bytes). Each image is opened with the real store and scanned; two of the recovered images are continued by the second workload under the recorder and crashed again. Oracle C02: every key must carry the value written by the last commit that was acknowledged before the crash (under power loss: acknowledged with Immediate durability, or before a completed flush_wal(true) / clean close) or by a later commit. Non-trivial: a case with images on which at least one commit was required, including power-loss images. evaluations counts workloads; coverage.totals.n_images counts opened images.",
         Judge::Reopen => "crash stream of C07: workload in a child process under the LD_PRELOAD recorder; process-crash and power-loss images at the selected file-operation boundaries (also inside recovery of a reopen and on second-generation traces). Every image must open, scan without error, accept a probe transaction that overwrites every key the workload ever wrote (visible after recovery or not) followed by 12 single-key commits, read all of them back unshadowed, close cleanly and open a second time with exactly the scanned contents plus the probe and filler writes.",
-        Judge::History => "crash stream of C10: versioning-enabled stores (B+tree version index on in one sub-stream, off in the other; value log on/off), generated timestamped histories (explicit non-decreasing timestamps per key without ties, sets / soft deletes / hard deletes / replaces, one write per key per transaction) with rotate / flush / compaction / reopen steps, run in a child process under the LD_PRELOAD recorder. Process-crash and power-loss images at every file-operation boundary (all of them for traces <= 300 operations, else every boundary near a marker / rename / unlink / fsync / open plus a strided sample), i.e. also at every boundary inside a flush, where the version index is updated in place before the manifest switches. Each image is opened by the real store; its latest values must equal the state after some prefix h of the commit order, and - on a freshly materialised copy, right after recovery - every full-range history (tombstones on/off, forward and backward) and every get_at at, just below and just above every version timestamp must equal the version model after such a prefix. Non-trivial: a case in which an image taken inside a flush or compaction step was checked and a key with >= 3 versions was traversed. evaluations counts workloads; coverage n_images counts opened images.",
+        Judge::History => "crash stream of C10: versioning-enabled stores (B+tree version index on in one sub-stream, off in the other; value log on/off), generated timestamped histories (explicit non-decreasing timestamps per key without ties, sets / soft deletes / hard deletes / replaces, one write per key per transaction) with rotate / flush / compaction / reopen steps, run in a child process under the LD_PRELOAD recorder. Process-crash and power-loss images at every file-operation boundary (all of them for traces <= 300 operations, else every boundary near a marker / rename / unlink / fsync / open plus a strided sample), i.e. also at every boundary inside a flush, where the version index is updated in place before the manifest switches. Each image is opened by the real store; its latest values must equal the state after some prefix h of the commit order, and - on a freshly materialised copy, right after recovery - every full-range history (tombstones on/off, forward and backward) and every get_at at, just below and just above every version timestamp must equal the version model after such a prefix (every prefix with these latest values is tried). Non-trivial: a case in which an image taken inside a flush or compaction step was checked and a key with >= 3 versions was traversed. evaluations counts workloads; coverage n_images counts opened images.",
         Judge::Prefix => "case and crash-image enumeration as for C02 (workload in a child process under the LD_PRELOAD recorder; process-crash and power-loss images at every selected file-operation boundary, including the middle of WAL records, flushes, manifest replacement, compaction, WAL clean-up and recovery itself; second generation on recovered images). Oracle C03: the full recovered key->value map must EQUAL the state after some prefix of the commit order reported by the workload process (commits started before the crash point), i.e. every transaction is all-or-nothing, no later transaction without all earlier ones, nothing deleted or overwritten inside the prefix reappears. Non-trivial: a case with >= 2 admissible prefixes at some checked image and at least one power-loss image. evaluations counts workloads; coverage.totals.n_images counts opened images.",
     };
     PropDef {
